@@ -28,15 +28,23 @@
    time (circuit breaker, dead pooled connection) and leaves open whether the call took
    effect.
 
+   The argument (ArgIntact): Add/Exists READ the caller's byte slice: neither its bytes
+   nor the spare capacity behind them are written, so the same slice (or slices cut from
+   one buffer) may be handed to any number of concurrent calls.
+
    Calls are intervals: PStart, then the atomic step PLin somewhere inside, then PEnd
    (PLinEnd = both at once).  Sequential histories are the special case of one call at
-   a time.                                                                           *)
+   a time (PCall = all three at once).
+
+   taint is FALSE in every behaviour of this specification proper; only the known-finding
+   deviation of BloomTrace.tla (a call that computed its bit positions from a buffer
+   another call was writing to) sets it, after which answers are no longer judged.   *)
 EXTENDS Integers, FiniteSets, Sequences, TLC
 
 CONSTANT KeepMemo     \* TRUE: memo accumulates (trace validation, small MC); FALSE: last answer only
 
-VARIABLES flt, mem, ttl, memo, dirty, down, calls
-pvars == <<flt, mem, ttl, memo, dirty, down, calls>>
+VARIABLES flt, mem, ttl, memo, dirty, down, calls, taint
+pvars == <<flt, mem, ttl, memo, dirty, down, calls, taint>>
 
 KeyOf(f) == flt[f].key
 GeoOf(f) == flt[f].g
@@ -48,48 +56,54 @@ PInit(filters, nk) ==
   /\ flt = filters
   /\ mem = [k \in 1..nk |-> {}]
   /\ ttl = [k \in 1..nk |-> 0]
-  /\ memo = {} /\ dirty = FALSE /\ down = FALSE /\ calls = <<>>
+  /\ memo = {} /\ dirty = FALSE /\ down = FALSE /\ calls = <<>> /\ taint = FALSE
 
 PReset(filters, nk) ==
   /\ flt' = filters
   /\ mem' = [k \in 1..nk |-> {}]
   /\ ttl' = [k \in 1..nk |-> 0]
-  /\ memo' = {} /\ dirty' = FALSE /\ down' = FALSE /\ calls' = <<>>
+  /\ memo' = {} /\ dirty' = FALSE /\ down' = FALSE /\ calls' = <<>> /\ taint' = FALSE
 
 \* ---------------------------------------------------------------- the law of answers
-AnswerOK(k, x, g, S, r, M) ==
-  /\ (<<x, g>> \in S => r)
-  /\ (S = {} => ~r)
-  /\ \A e \in M : (e.k = k /\ e.x = x /\ e.g = g) =>
+NoFalseNegative(x, g, S, r) == <<x, g>> \in S => r
+EmptyIsEmpty(S, r) == S = {} => ~r
+FunctionOfSet(k, x, g, S, r, M) ==
+  \A e \in M : (e.k = k /\ e.x = x /\ e.g = g) =>
         /\ ((e.S \subseteq S /\ e.r) => r)
         /\ ((S \subseteq e.S /\ ~e.r) => ~r)
 
-\* is the atomic step of call c with answer r / error err / effect applied legal?
-LinOK(c, r, err, applied) ==
-  LET cl == calls[c] IN
+AnswerOK(k, x, g, S, r, M) ==
+  /\ NoFalseNegative(x, g, S, r)
+  /\ EmptyIsEmpty(S, r)
+  /\ FunctionOfSet(k, x, g, S, r, M)
+
+\* is the atomic step of a call cl with answer r / error err / effect applied legal?
+\* cl = [op, f, x, s, bad, ...]: op in add | exists | del | expire; bad = an out-of-range offset
+LinOKr(cl, r, err, applied) ==
   /\ (cl.bad => (err /\ ~applied))
   /\ (down => (err /\ ~applied))
   /\ ((~dirty /\ ~cl.bad) => ~err)
   /\ (~err => applied)
-  /\ ((cl.op = "exists" /\ ~err) =>
+  /\ ((cl.op = "exists" /\ ~err /\ ~taint) =>
         AnswerOK(KeyOf(cl.f), cl.x, GeoOf(cl.f), mem[KeyOf(cl.f)], r, memo))
+LinOK(c, r, err, applied) == LinOKr(calls[c], r, err, applied)
 
-\* the argument buffer belongs to the caller: neither its bytes nor the spare capacity behind
-\* them are written (clob = the driver saw a byte of the backing array change)
+\* the argument buffer belongs to the caller (clob = the driver saw a byte of the backing
+\* array change: the len(data) bytes or the spare capacity behind them)
 ArgIntact(clob) == ~clob
 
 \* ---------------------------------------------------------------- effects (unguarded)
 Clear(k) == mem' = [mem EXCEPT ![k] = {}] /\ ttl' = [ttl EXCEPT ![k] = 0]
 
-PEffect(c, r, err, applied) ==
-  LET cl == calls[c]
-      k  == KeyOf(cl.f)
+\* note = the answer of an Exists goes into memo
+PEffectN(cl, r, err, applied, note) ==
+  LET k  == KeyOf(cl.f)
       g  == GeoOf(cl.f)
   IN CASE cl.op = "add" ->
             /\ mem' = IF applied THEN [mem EXCEPT ![k] = @ \cup {<<cl.x, g>>}] ELSE mem
             /\ UNCHANGED <<ttl, memo>>
        [] cl.op = "exists" ->
-            /\ memo' = IF err THEN memo
+            /\ memo' = IF err \/ taint \/ ~note THEN memo
                        ELSE (IF KeepMemo THEN memo ELSE {}) \cup
                             {[k |-> k, x |-> cl.x, g |-> g, S |-> mem[k], r |-> r]}
             /\ UNCHANGED <<mem, ttl>>
@@ -102,38 +116,55 @@ PEffect(c, r, err, applied) ==
                       ELSE ttl' = [ttl EXCEPT ![k] = cl.s * 1000] /\ UNCHANGED mem
                  ELSE UNCHANGED <<mem, ttl>>
             /\ UNCHANGED memo
+PEffectR(cl, r, err, applied) == PEffectN(cl, r, err, applied, TRUE)
+PEffect(c, r, err, applied) == PEffectR(calls[c], r, err, applied)
 
-\* rec = [op, f, x, s, bad, raw, st |-> "pend", r |-> FALSE, err |-> FALSE]
+\* rec = [op, f, x, s, bad, st |-> "pend", r |-> FALSE, err |-> FALSE, ...]
 PStart(c, rec) ==
   /\ c \notin DOMAIN calls
   /\ calls' = (c :> rec) @@ calls
-  /\ UNCHANGED <<flt, mem, ttl, memo, dirty, down>>
+  /\ UNCHANGED <<flt, mem, ttl, memo, dirty, down, taint>>
 
 PLin(c, r, err, applied) ==
   /\ c \in DOMAIN calls /\ calls[c].st = "pend"
   /\ PEffect(c, r, err, applied)
   /\ calls' = [calls EXCEPT ![c] = [@ EXCEPT !.st = "lin", !.r = r, !.err = err]]
-  /\ UNCHANGED <<flt, dirty, down>>
+  /\ UNCHANGED <<flt, dirty, down, taint>>
+
+\* the same step judged against memo but not noted in it (trace validation of overlapping calls: which
+\* set an overlapping Exists saw depends on the linearisation TLC is still searching for; the answers
+\* given between rounds are the ones remembered)
+PLinQuiet(c, r, err, applied) ==
+  /\ c \in DOMAIN calls /\ calls[c].st = "pend"
+  /\ PEffectN(calls[c], r, err, applied, FALSE)
+  /\ calls' = [calls EXCEPT ![c] = [@ EXCEPT !.st = "lin", !.r = r, !.err = err]]
+  /\ UNCHANGED <<flt, dirty, down, taint>>
 
 PEnd(c, r, err) ==
   /\ c \in DOMAIN calls /\ calls[c].st = "lin"
   /\ calls[c].err = err
   /\ ((calls[c].op = "exists" /\ ~err) => calls[c].r = r)
   /\ calls' = Without(calls, c)
-  /\ UNCHANGED <<flt, mem, ttl, memo, dirty, down>>
+  /\ UNCHANGED <<flt, mem, ttl, memo, dirty, down, taint>>
 
 PLinEnd(c, r, err, applied) ==
   /\ c \in DOMAIN calls /\ calls[c].st = "pend"
   /\ PEffect(c, r, err, applied)
   /\ calls' = Without(calls, c)
-  /\ UNCHANGED <<flt, dirty, down>>
+  /\ UNCHANGED <<flt, dirty, down, taint>>
+
+\* a call that overlaps no other: start, atomic step and return at once
+PCall(rec, r, err, applied) ==
+  /\ NoCalls
+  /\ PEffectR(rec, r, err, applied)
+  /\ UNCHANGED <<flt, dirty, down, calls, taint>>
 
 \* the store's clock moves by d ms: keys whose life ends are gone, with everything in them
-PAdvance(d) ==
+AdvEffect(d) ==
   /\ d > 0
   /\ mem' = [k \in DOMAIN mem |-> IF ttl[k] > 0 /\ ttl[k] <= d THEN {} ELSE mem[k]]
   /\ ttl' = [k \in DOMAIN ttl |-> IF ttl[k] > d THEN ttl[k] - d ELSE 0]
-  /\ UNCHANGED <<flt, memo, dirty, down, calls>>
+PAdvance(d) == AdvEffect(d) /\ UNCHANGED <<flt, memo, dirty, down, calls, taint>>
 
 \* "up" | "err" (every command refused) | "closed" (store gone) between calls;
 \* "flaky" (single commands may be refused from now on) at any time
@@ -141,10 +172,30 @@ PFault(m) ==
   /\ (m # "flaky" => NoCalls)
   /\ dirty' = (dirty \/ m # "up")
   /\ down' = IF m = "flaky" THEN down ELSE m \in {"err", "closed"}
-  /\ UNCHANGED <<flt, mem, ttl, memo, calls>>
+  /\ UNCHANGED <<flt, mem, ttl, memo, calls, taint>>
+
+\* ---------------------------------------------------------------- shared by the bounded models
+\* filter tables (chosen in a cfg: Filters <- FT3 ...): f1, f2 are two Filter objects on one key with
+\* one geometry, f3 the same key through another geometry, f4 another key
+FT1 == <<[key |-> 1, g |-> 3]>>
+FT2 == <<[key |-> 1, g |-> 3], [key |-> 1, g |-> 3]>>
+FT3 == <<[key |-> 1, g |-> 3], [key |-> 1, g |-> 3], [key |-> 1, g |-> 2]>>
+FT4 == <<[key |-> 1, g |-> 3], [key |-> 1, g |-> 3], [key |-> 1, g |-> 2], [key |-> 2, g |-> 3]>>
+
+Rec(op, f, x, s, bad) == [op |-> op, f |-> f, x |-> x, s |-> s, bad |-> bad,
+                          st |-> "pend", r |-> FALSE, err |-> FALSE]
+\* the calls of a bounded model: Add/Exists of every element through every filter, the same with an
+\* out-of-range offset (one element, filters BadOn), Del and Expire through every filter
+RecsOf(elems, filters, secs, badOn) ==
+  LET be == CHOOSE y \in elems : TRUE IN
+        {Rec(op, f, x, 0, FALSE) : op \in {"add", "exists"}, f \in DOMAIN filters, x \in elems}
+  \cup {Rec(op, f, be, 0, TRUE) : op \in {"add", "exists"}, f \in badOn}
+  \cup {Rec("del", f, 0, 0, FALSE) : f \in DOMAIN filters}
+  \cup {Rec("expire", f, 0, s, FALSE) : f \in DOMAIN filters, s \in secs}
 
 \* ---------------------------------------------------------------- properties
-AnswersOK == \A e \in memo : AnswerOK(e.k, e.x, e.g, e.S, e.r, memo)
+AnswersOK == ~taint => \A e \in memo : AnswerOK(e.k, e.x, e.g, e.S, e.r, memo)
 TtlOnlyOnLive == \A k \in DOMAIN mem : ttl[k] > 0 => mem[k] # {}
 SameGeometry == \A k \in DOMAIN mem : \A p \in mem[k] : \E f \in DOMAIN flt : flt[f].key = k /\ flt[f].g = p[2]
+NeverTainted == ~taint
 =============================================================================
